@@ -5,6 +5,7 @@ import PetgraphModel.Oracle.C12Forest
 import PetgraphModel.Oracle.C12W4
 import PetgraphModel.Model.C12Mst
 import PetgraphModel.Model.C12W4
+import PetgraphModel.Model.C12W6
 /-
 C12 driver.  Requests (after a `graph …` line):
 
@@ -33,6 +34,16 @@ of the nodes reachable from the first node (`Oracle/C12W4.lean`, `judgePrimDirec
 if empty).  Keys are integers, `nan`, `inf`, `-inf`.  Exact part: the heap mirror, vector included;
 spec-level part: the priority-queue specification `pqJudge`.
 
+Wave 6: weights are integers or `nan` / `inf` / `-inf` (float encodings; `sw=` field of the graph
+line), read as KEYS (`scoreKey`, NaN greatest: the order `MinScored` documents); `fe=` kinds `b`
+(`Graph<_, _, Undirected, u8>`: the documented panic beyond 255 nodes is the expected answer) and `m`
+(`GraphMap<_, _, Undirected>`); `law …` / `iterlaw …` lines (laws the harness checks against the
+implementation itself: the driver expects `ok`); `mscmp <min|max> <kt> <a> <b>` lines (every
+comparison operator of `MinScored` / `MaxScored` against the transcriptions of `cmp`); adaptor
+encodings whose `edges(a)` reports entries with a source other than `a` (`inc=`) or repeats
+self-loops are the open findings D23 (`UndirectedAdaptor`) / D6 (`Reversed(&MatrixGraph)`), classified
+narrowly by `enc=`; anywhere else they are side-condition failures.
+
 Side conditions (hypotheses of the model theorems) are evaluated on every case:
 `SPECFAIL side condition <name> does not hold: …` = the encoding's trait impls do not describe one
 well-formed graph; `SPECFAIL generator left the proved range: …` = the generated input is outside
@@ -44,6 +55,11 @@ open PetgraphModel PetgraphModel.MST PetgraphModel.MstModel PetgraphModel.Oracle
 structure DState where
   v : View := default
   ok : Bool := false
+  /-- the view as `min_spanning_tree_prim` sees it (`primView`; = `v` unless `inc=` is present) -/
+  pv : View := default
+  enc : String := ""
+  /-- some `edges(a)` entry has a source other than `a` -/
+  incAny : Bool := false
 
 /-- brute-force bound on the number of edges (minimality by enumeration of all edge subsets) -/
 def bruteBound : Nat := 12
@@ -142,8 +158,8 @@ def parseTok (s : String) : Tok :=
     | none => .bad s
   else if s.startsWith "E" then
     match (s.drop 1).toString.splitOn ":" with
-    | [a, b, w] => match a.toNat?, b.toNat?, w.toInt? with
-      | some a, some b, some w => .edge a b w
+    | [a, b, w] => match a.toNat?, b.toNat?, parseScore w with
+      | some a, some b, some w => if scoreInRangeB w then .edge a b (scoreKey w) else .bad s
       | _, _, _ => .bad s
     | _ => .bad s
   else .bad s
@@ -161,7 +177,11 @@ def splitStream : List Tok → Option (List Nat × List EdgeEl)
     else none
   | .bad _ :: _ => none
 
-def showEl (e : EdgeEl) : String := s!"E{e.s}:{e.t}:{e.w}"
+/-- keys back to the protocol's weights -/
+def showKey (k : Int) : String :=
+  if k == bigKey + 1 then "nan" else if k == bigKey then "inf" else if k == -bigKey then "-inf" else toString k
+
+def showEl (e : EdgeEl) : String := s!"E{e.s}:{e.t}:{showKey e.w}"
 
 def showRes : Res → String
   | .ok ns es =>
@@ -178,27 +198,58 @@ def absEdges (ns : List Nat) : List EdgeEl → Option (List (Nat × Nat × Int))
     | some a, some b, some r => some ((a, b, e.w) :: r)
     | _, _, _ => none
 
+def showTriples (l : List (Nat × Nat × Int)) : String :=
+  if l.isEmpty then "-" else String.intercalate ";" (l.map fun e => s!"{e.1}:{e.2.1}:{showKey e.2.2}")
+
+def parseTriples (s : String) : Option (List (Nat × Nat × Int)) :=
+  if s == "-" then some [] else
+  (s.splitOn ";").mapM fun t =>
+    match t.splitOn ":" with
+    | [a, b, w] => match a.toNat?, b.toNat?, parseScore w with
+      | some a, some b, some w => some (a, b, scoreKey w)
+      | _, _, _ => none
+    | _ => none
+
+def normTriple (e : Nat × Nat × Int) : Nat × Nat × Int := if e.1 ≤ e.2.1 then e else (e.2.1, e.1, e.2.2)
+
 /-- the graph built by `from_elements` must be the stream: same node weights in order, the edges in
-order with the weights of the nodes at the given positions -/
-def feOk (ns : List Nat) (S : List (Nat × Nat × Int)) (feN feE : String) : Option String :=
+order with the weights of the nodes at the given positions.  Kind `b` (`u8` indices): beyond 255
+nodes or edges the documented panic of `add_node` / `add_edge` is the expected answer.  Kind `m`
+(`GraphMap`, undirected): the edges as a multiset of unordered pairs (`all_edges` is documented to
+list them in arbitrary order). -/
+def feOk (kind : String) (ns : List Nat) (S : List (Nat × Nat × Int)) (feN feE : String) : Option String :=
+  if kind == "b" && (ns.length > 255 || S.length > 255) then
+    (if feN == "panic" then none
+     else some s!"from_elements into Graph<_, _, _, u8> accepted {ns.length} nodes and {S.length} edges (at most 255 fit)") else
   if feN == "panic" then some "from_elements panicked on the stream" else
   if parseNats feN != ns then some s!"from_elements node weights {feN}, stream has {showNats ns}" else
-  let want := if S.isEmpty then "-" else String.intercalate ";" (S.map fun e => s!"{e.1}:{e.2.1}:{e.2.2}")
+  let want := showTriples S
+  if kind == "m" then
+    match parseTriples feE with
+    | none => some s!"from_elements edges {feE} are malformed"
+    | some got =>
+      if (got.map normTriple).isPerm (S.map normTriple) then none
+      else some s!"from_elements edges {feE}, stream has {want} (as unordered pairs, any order)"
+  else
   if feE != want then some s!"from_elements edges {feE}, stream has {want}" else none
 
 /-- spec-level verdict on a stream; `prim` selects Prim's clause -/
-def judgeStream (g : MGraph) (prim : Bool) (ns : List Nat) (es : List EdgeEl) (feN feE : String) : Option String :=
+def judgeStreamK (kind : String) (g : MGraph) (prim : Bool) (ns : List Nat) (es : List EdgeEl) (feN feE : String) : Option String :=
   if ns != g.nodes then
     some s!"node elements {showNats ns}, the graph's nodes in order are {showNats g.nodes}" else
   match absEdges ns es with
   | none => some "an edge element refers to a position beyond the node elements"
   | some S =>
-    match feOk ns S feN feE with
+    match feOk kind ns S feN feE with
     | some why => some why
     | none =>
       if prim then
         if g.directed then judgePrimDirected g.nodes g.edges S else judgePrimEdges g.nodes g.edges bruteBound S
       else judgeForest g.nodes g.edges bruteBound S
+
+/-- the judge for the collecting kinds of waves 1-4 (`g`, `s`, `d`) -/
+def judgeStream (g : MGraph) (prim : Bool) (ns : List Nat) (es : List EdgeEl) (feN feE : String) : Option String :=
+  judgeStreamK "g" g prim ns es feN feE
 
 def verdict (spec : Option String) (model impl : String) : String :=
   match spec with
@@ -207,10 +258,26 @@ def verdict (spec : Option String) (model impl : String) : String :=
 
 def showFE : FERes → String
   | .ok ns es =>
-    let e := if es.isEmpty then "-" else String.intercalate ";" (es.map fun e => s!"{e.1}:{e.2.1}:{e.2.2}")
-    s!"{showNats ns}|{e}"
+    s!"{showNats ns}|{showTriples es}"
   | .panic => "panic|panic"
   | .fault => "FAULT|FAULT"
+
+/-- the encodings in which finding D23 shows (`UndirectedAdaptor` over a base whose `edges_directed(_, Incoming)`
+reports the stored orientation) -/
+def d23Enc (enc : String) : Bool := enc == "und-graph" || enc == "und-stable" || enc == "und-map"
+
+/-- the model of the collected graph, by kind -/
+def collectK (kind : String) (ns : List Nat) (es : List EdgeEl) : FERes :=
+  if kind == "b" then collectGraph 255 false ns es
+  else if kind == "m" then (match mapEdges ns es with | some l => .ok ns l | none => .panic)
+  else collect kind ns es
+
+/-- is the stream what directed storage would give (D23: `UndirectedAdaptor::edges` reports incoming
+edges with their stored orientation, so Prim follows out-edges only)? -/
+def primAsDirected (g : MGraph) (ns : List Nat) (es : List EdgeEl) : Bool :=
+  match absEdges ns es with
+  | some S => (judgePrimDirected g.nodes g.edges S).isNone
+  | none => false
 
 def answer (d : DState) (prim : Bool) (kind : String) (model : Res) (impl : String) : String :=
   if impl == "panic" then
@@ -222,10 +289,18 @@ def answer (d : DState) (prim : Bool) (kind : String) (model : Res) (impl : Stri
   | [st, feN, feE] =>
     let toks := if st == "-" then [] else (st.splitOn ",").map parseTok
     match splitStream toks with
-    | none => s!"SPECFAIL the stream is not node elements followed by edge elements: {st}"
+    | none => s!"SPECFAIL the stream is not node elements followed by edge elements (weights: integers below 10^30 in size, nan, inf, -inf): {st}"
     | some (ns, es) =>
-      match judgeStream d.v.g prim ns es feN feE with
-      | some why => s!"SPECFAIL {why}"
+      match judgeStreamK kind d.v.g prim ns es feN feE with
+      | some why =>
+        -- open findings, classified narrowly: Prim only, the adaptor encodings only, and only the
+        -- recorded wrong behaviour (the stream is exactly what out-edges-only Prim gives)
+        if prim && d.incAny && d23Enc d.enc
+            && primAsDirected d.v.g ns es && showRes model == st then
+          s!"KNOWN D23 min_spanning_tree_prim over UndirectedAdaptor follows out-edges only (edges(a) reports incoming edges with source != a): {why}"
+        else if prim && d.incAny && d.enc == "rev-matrix" && showRes model == st then
+          s!"KNOWN D6 min_spanning_tree_prim over Reversed(&MatrixGraph) sees edges(a) with target a: {why}"
+        else s!"SPECFAIL {why}"
       | none =>
         -- hypothesis of the `from_elements` theorems (the positions were judged above)
         if !feFitsB u32max ns es then
@@ -233,7 +308,7 @@ def answer (d : DState) (prim : Bool) (kind : String) (model : Res) (impl : Stri
         else
           -- exact part: the stream against the MST mirror, the collected graph against the
           -- `from_elements` model run on the implementation's own stream
-          cmpExact s!"{showRes model}|{showFE (collect kind ns es)}" impl
+          cmpExact s!"{showRes model}|{showFE (collectK kind ns es)}" impl
   | _ => s!"SPECFAIL malformed answer {impl}"
 
 /-! ### heap scripts -/
@@ -243,9 +318,6 @@ def parseKey (s : String) : Option SP.Score :=
   else if s == "inf" then some .pinf
   else if s == "-inf" then some .ninf
   else s.toInt?.map .fin
-
-def showKey (k : Int) : String :=
-  if k == bigKey + 1 then "nan" else if k == bigKey then "inf" else if k == -bigKey then "-inf" else toString k
 
 def parseLay (s : String) : List Nat :=
   if s == "-" then [] else (s.splitOn ".").filterMap (·.toNat?)
@@ -300,16 +372,75 @@ def heapAnswer (opsField impl : String) : String :=
       let m := heapRun [] ops
       cmpExact (if m.isEmpty then "-" else String.intercalate ";" (m.map showHAns)) impl
 
+/-! ### `mscmp` lines -/
+
+def mscmpAnswer (which a b impl : String) : String :=
+  match parseScore a, parseScore b with
+  | some x, some y =>
+    if !(scoreInRangeB x && scoreInRangeB y) then
+      "SPECFAIL generator left the proved range: a score is not between -10^30 and 10^30"
+    else
+      let c := if which == "min" then SP.scoreCmp x y else maxCmp x y
+      let want := cmpAnswer c
+      if impl == want then "ok"
+      else s!"SPECFAIL {if which == "min" then "MinScored" else "MaxScored"}({a}) vs ({b}): the documented total order gives [{want}], the implementation [{impl}]"
+  | _, _ => s!"SPECFAIL bad request: malformed scores {a} {b}"
+
+/-- structured verdict on a `graph` line -/
+inductive GVerdict where
+  | ok
+  | known (id why : String)
+  | fail (why : String)
+  deriving Repr, DecidableEq
+
+/-- the verdict on a view (special weights applied) reported by encoding `enc` with the flagged
+entries `inc`, and the state for the requests that follow -/
+def graphVerdictOf (enc : String) (inc : List (Nat × List Nat)) (raw : View) : DState × GVerdict :=
+  let incAny := inc.any fun x => !x.2.isEmpty
+  let und := enc.startsWith "und-"
+  -- the view the side conditions are checked on: an `UndirectedAdaptor` lists self-loops twice (D23)
+  let v := if und then dedupLoops raw else raw
+  let pv := primView inc raw
+  match viewFailure v with
+  | some why => ({ v := v, ok := false, pv := pv, enc := enc, incAny := incAny }, .fail s!"side condition {why}")
+  | none =>
+    if incAny then
+      if d23Enc enc then
+        ({ v := v, ok := true, pv := pv, enc := enc, incAny := incAny },
+          .known "D23" "UndirectedAdaptor::edges(a) yields incoming edges with their stored orientation (source != a)")
+      else if enc == "rev-matrix" then
+        ({ v := v, ok := true, pv := pv, enc := enc, incAny := incAny },
+          .known "D6" "Reversed(&MatrixGraph)::edges(a) yields edges whose source is not a (MatrixGraph::edges_directed(_, Incoming) reports (a, predecessor))")
+      else ({ v := v, ok := false, pv := pv, enc := enc, incAny := incAny },
+          .fail "side condition source_is_a does not hold: edges(a) yields an edge reference whose source is not a")
+    else if und && loopsRepeated raw then
+      ({ v := v, ok := true, pv := pv, enc := enc, incAny := incAny },
+        .known "D23" "UndirectedAdaptor::edges(a) lists a self-loop twice")
+    else ({ v := v, ok := true, pv := pv, enc := enc, incAny := incAny }, .ok)
+
+/-- the verdict on a `graph` line -/
+def graphVerdict (req : List String) : DState × GVerdict :=
+  match parseView req with
+  | none => ({}, .fail "unparsable graph line")
+  | some v0 =>
+    let sw := parseSW ((field? req "sw").getD "-")
+    if !(sw.all fun x => scoreInRangeB x.2) then
+      ({}, .fail "generator left the proved range: a weight is not between -10^30 and 10^30")
+    else graphVerdictOf ((field? req "enc").getD "") (parseInc ((field? req "inc").getD "-")) (applySW sw v0)
+
+def showGVerdict : GVerdict → String
+  | .ok => "ok"
+  | .known id why => s!"KNOWN {id} {why}"
+  | .fail why => s!"SPECFAIL {why}"
+
+def graphStep (req : List String) : DState × String :=
+  let r := graphVerdict req
+  (r.1, showGVerdict r.2)
+
 def step (d : DState) (req : List String) (impl : String) : DState × String :=
   match req with
   | "case" :: k :: _ => ({}, s!"case {k}")
-  | "graph" :: _ =>
-    match parseView req with
-    | none => (d, "SPECFAIL unparsable graph line")
-    | some v =>
-      match viewFailure v with
-      | none => ({ v := v, ok := true }, "ok")
-      | some why => ({ v := v, ok := false }, s!"SPECFAIL side condition {why}")
+  | "graph" :: _ => graphStep req
   | "kruskal" :: _ =>
     if !d.ok then (d, "SPECFAIL no valid graph line") else
     let er := parseEr ((field? req "er").getD "-")
@@ -318,8 +449,13 @@ def step (d : DState) (req : List String) (impl : String) : DState × String :=
     (d, answer d false ((field? req "fe").getD "g") (kruskal d.v er) impl)
   | "prim" :: _ =>
     if !d.ok then (d, "SPECFAIL no valid graph line") else
-    (d, answer d true ((field? req "fe").getD "g") (prim d.v) impl)
+    (d, answer d true ((field? req "fe").getD "g") (prim d.pv) impl)
   | "heap" :: _ => (d, heapAnswer ((field? req "ops").getD "-") impl)
+  | ["mscmp", which, _, a, b] => (d, mscmpAnswer which a b impl)
+  | kw :: rest =>
+    if kw == "law" || kw == "iterlaw" then
+      (d, if impl == "ok" then "ok" else s!"SPECFAIL {kw} {String.intercalate " " rest} does not hold: {impl}")
+    else (d, s!"SPECFAIL bad request {req}")
   | _ => (d, s!"SPECFAIL bad request {req}")
 
 end PetgraphModel.C12
